@@ -55,7 +55,7 @@ def frame_trace_leg(ctx, pid):
     ctx.traces += len(traces)
     ctx.steps += nev
     ctx.notes["frame_trace_events_by_kind"] = kinds
-    for need in ("Create", "Noise", "Noise!", "ZeroData", "Signal", "Signal!", "Snr", "Snr!", "Derive", "Save", "Copy",
+    for need in ("Create", "Noise", "Noise!", "ZeroData", "Signal", "Signal!", "Snr", "Snr!", "Derive", "Save", "Copy", "Meta", "Info",
                  "Load-of-recorded-save:file", "Load-of-recorded-save:pickle"):
         if kinds.get(need, 0) == 0:
             raise RuntimeError("vacuity: no %s event in any recorded frame trace" % need)
